@@ -24,7 +24,9 @@ def design(ctx, thorough):
     cfg = "mc/OmpSchedule_design.cfg" if thorough else "mc/OmpSchedule_design_quick.cfg"
     r = ctx.tlc("mc/MC_OmpSchedule.tla", cfg, workers=4, coverage=True, deadlock=False, timeout=6000)
     ctx.tlc_must_pass(r, "OmpSchedule design (%s)" % cfg)
-    ctx.require_coverage(r, ["BeginNest", "AddStmt", "Finish", "OmpLaunch", "Grab", "OmpStmt", "OmpNextNest"])
+    ctx.cov["design_actions_taken"] = kc.require_cov(r, [("OBegin", "DoBegin", "BeginNest"), ("OAdd", "DoAdd", "AddStmt"),
+                                                          ("ONextPhase", "DoNextPhase", "NextPhase"), ("OFinish", "Finish"),
+                                                          ("DoOmpLaunch", "OmpLaunch"), ("DoGrab", "Grab"), ("DoOmpStmt", "OmpStmt", "Idle"), ("OmpNextNest",)])
     caught = 0
     for cfg, what in MUTANTS:
         # random distributions/interleavings find the counterexample much faster than breadth-first search
@@ -228,17 +230,10 @@ def run(ctx):
                     if not o["err"]:
                         serial[(bi, ki, vi)] = o["out"]
     kc.lap(ctx, t0, "serial")
-    # OpenMP through the real mode, every thread count (the first configuration fills the JIT cache)
-    configs = 0
-    for nt in THREADS:
-        oruns = kc.run(ctx, batches, res, ["openmp"], variant="fast", fanout=fan, cache_name="cache", reps=reps,
-                       env_extra={"OMP_NUM_THREADS": str(nt), "OMP_DYNAMIC": "false"})
-        check_runs(ctx, batches, res, oruns, "openmp", "threads=%d" % nt, argvecs, stats, serial)
-        configs += 1
-    kc.lap(ctx, t0, "openmp x threads")
-    # the same translation with the schedule left to OMP_SCHEDULE: ` schedule(runtime)` appended to the pragmas the
-    # translator emitted (without a schedule clause the choice is the implementation's), built by the OpenMP device
-    # from the translated source (okl/enabled = false)
+    # OpenMP through the real mode (unmodified translation), every thread count; and the same translation with the
+    # schedule left to OMP_SCHEDULE: ` schedule(runtime)` appended to the pragmas the translator emitted (without a
+    # schedule clause the choice is the implementation's), built by the OpenMP device from the translated source
+    # (okl/enabled = false)
     sched_src = {}
     for bi, b in enumerate(batches):
         r = res[(bi, "openmp")]
@@ -256,13 +251,26 @@ def run(ctx):
         sched_src[bi] = p
         stats["parallel_for_pragmas"] += n
     tset = THREADS if thorough else [2, 4, 16]
-    for nt in tset:
-        for sc in SCHEDULES:
-            oruns = kc.run(ctx, batches, res, ["openmp"], variant="fast", fanout=fan, cache_name="cache", reps=reps,
-                           props={"okl": {"enabled": False}}, okl_of=lambda bi, m: sched_src.get(bi),
-                           env_extra={"OMP_NUM_THREADS": str(nt), "OMP_SCHEDULE": sc, "OMP_DYNAMIC": "false"})
-            check_runs(ctx, batches, res, oruns, "openmp", "threads=%d/schedule=%s" % (nt, sc), argvecs, stats, serial)
-            configs += 1
+    configs = [("threads=%d" % nt, {"OMP_NUM_THREADS": str(nt), "OMP_DYNAMIC": "false"}, False) for nt in THREADS]
+    configs += [("threads=%d/schedule=%s" % (nt, sc), {"OMP_NUM_THREADS": str(nt), "OMP_SCHEDULE": sc, "OMP_DYNAMIC": "false"}, True)
+                for nt in tset for sc in SCHEDULES]
+
+    def one(cfg):
+        label, env, sched = cfg
+        if sched:
+            return kc.run(ctx, batches, res, ["openmp"], variant="fast", fanout=2, cache_name="cache", reps=reps, env_extra=env,
+                          props={"okl": {"enabled": False}}, okl_of=lambda bi, m: sched_src.get(bi))
+        return kc.run(ctx, batches, res, ["openmp"], variant="fast", fanout=2, cache_name="cache", reps=reps, env_extra=env)
+
+    # the first configuration of each kind fills the JIT cache; the others run side by side
+    first = [configs[0], configs[len(THREADS)]]
+    rest = [c for c in configs if c not in first]
+    results = [(c, one(c)) for c in first]
+    with concurrent.futures.ThreadPoolExecutor(max_workers=(6 if thorough else 3)) as ex:
+        results += list(zip(rest, ex.map(one, rest)))
+    for (label, env, sched), oruns in results:
+        check_runs(ctx, batches, res, oruns, "openmp", label, argvecs, stats, serial)
+    configs = len(configs)
     kc.lap(ctx, t0, "openmp x threads x schedules")
     # race detection
     if not os.environ.get("C21_DEV_SKIP_TSAN"):
